@@ -32,6 +32,7 @@ type slot struct {
 	origin *world.Key // key that produced the bytes (nil: foreign / random bytes)
 	proj   string     // value (ref.Render) of the object minus signatures/unsigned at signing time
 	intact bool       // the signature bytes are the ones the signer produced
+	orig   string     // those bytes (unpadded standard base64), to notice a tamper that is later undone
 	copied bool       // a relay copied it here from another (name, key id)
 	how    string     // last thing that happened to it (for the signature tag)
 }
@@ -315,7 +316,8 @@ func (c *c02) sign(e entity, where string) {
 			r.Probe("same_keyid_under_two_names")
 		}
 	}
-	c.slots[slotKey{e.name, string(e.kid)}] = &slot{origin: e.key, proj: p0, intact: true, how: "fresh"}
+	origSig, _ := mine[string(e.kid)].(string)
+	c.slots[slotKey{e.name, string(e.kid)}] = &slot{origin: e.key, proj: p0, intact: true, orig: origSig, how: "fresh"}
 	c.signers[e.String()] = true
 	c.cur = out
 	harnessAssert(nsig == len(c.slots), "slot model (%d) and signatures object (%d) disagree", len(c.slots), nsig)
@@ -531,7 +533,12 @@ func (c *c02) corruptBytes(h int) {
 	}
 	ent[k.kid] = nv
 	s := c.slots[k]
-	s.intact = false
+	// a later fault may undo an earlier one (extend then truncate, the same bit
+	// flipped twice): what counts is whether the bytes are the signer's again
+	s.intact = s.orig != "" && nv == s.orig
+	if s.intact {
+		r.Probe("signature_bytes_restored_by_later_fault")
+	}
 	s.how = "corrupt_bytes_" + strings.SplitN(what, "@", 2)[0]
 	c.setWire(m, drawStyle(t))
 	c.faults++
@@ -599,7 +606,7 @@ func (c *c02) copySignature(h int) {
 		sigs[dst.name] = map[string]any{}
 	}
 	sigs[dst.name].(map[string]any)[dst.kid] = val
-	c.slots[dst] = &slot{origin: src.origin, proj: src.proj, intact: src.intact, copied: true, how: "copied"}
+	c.slots[dst] = &slot{origin: src.origin, proj: src.proj, intact: src.intact, orig: src.orig, copied: true, how: "copied"}
 	c.setWire(m, drawStyle(t))
 	c.faults++
 	r.Fault("wrong_key_signature")
